@@ -30,7 +30,7 @@ RollupAfterCompactOK ==
 \* family when ba = bb: a later file of it); a reader merges what it finds.  That must be the reference rollup of all
 \* three source files at their own bases, each once -- also when A's two files went in by two separate jobs.
 MultiSourceOK ==
-  \A bp \in {<<5, 5>>, <<5, 6>>, <<6, 5>>} :
+  \A bp \in {<<5, 5>>, <<5, 6>>} :
     LET ba == bp[1]  bb == bp[2]
         srcs == <<[base |-> ba, blocks |-> <<bs[1], bs[2]>>], [base |-> bb, blocks |-> <<bs[3]>>]>>
         a12 == RefRollup(<<bs[1], bs[2]>>, Types, ba, 2)
@@ -59,7 +59,7 @@ TargetAfter(offers, K(_)) ==
       acc == SelectSeq(o, LAMBDA x : \A j \in 1..(x.pos - 1) : K(o[j]) # K(x))
   IN RefMerge([i \in 1..Len(acc) |-> RefRollup(<<acc[i].block>>, Types, acc[i].base, 2)], Types)
 Bookkeeping(K(_)) ==
-  \A bp \in {<<5, 5>>, <<5, 6>>, <<6, 5>>} :
+  \A bp \in {<<5, 5>>, <<5, 6>>} :
     LET fs == SrcFiles(bp[1], bp[2])
         srcs == <<[base |-> bp[1], blocks |-> <<bs[1], bs[2]>>], [base |-> bp[2], blocks |-> <<bs[3]>>]>>
     IN MultiRollupOK(srcs, Types, 2, TargetAfter(Offered(fs), K))
